@@ -198,7 +198,7 @@ def run(rep, tier):
                        "TLC/SANY, structural codec, the extraction of the grammar ladder by harness/checks/c07.py (regular expressions over the grammar text)"]
     ops, lad, d = gen_tables(wd)
     # two independent pipelines run side by side (each is a chain of single processes): the nestings (which also tell which
-    # nestings have a well-typed instance, needed by C07_Syntax) | arguments + histories, then the corpus
+    # nestings have a well-typed instance, needed by C07_Syntax), then the corpus | arguments + histories
     from concurrent.futures import ThreadPoolExecutor
     acfg = "C07_Args.cfg" if quick else "C07_Args_wide.cfg"
     hcfgs = ["C07_History.cfg"] if quick else ["C07_History_wide.cfg", "C07_History_deep.cfg"]
@@ -215,9 +215,6 @@ def run(rep, tier):
                            2 if quick else 8], timeout=7200)
         res["evs3"] = read_events(ext)
         res["v3"] = validate_trace("C07_SyntaxTrace", ext, wd=wd / "tv_ext", nchunks=1 if quick else 3)
-        run_driver("c07", ["corpus", corp, seed(), 20 if quick else 400, ",".join(theories)], timeout=7200)
-        res["evs2"] = read_events(corp)
-        res["v2"] = validate_trace("C07_SyntaxTrace", corp, wd=wd / "tv_corpus", nchunks=1 if quick else 2)
         return res
     pool = ThreadPoolExecutor(max_workers=1)
     fut = pool.submit(side)
@@ -230,6 +227,9 @@ def run(rep, tier):
         r = model_check("C07_Syntax", "C07_Syntax.cfg", wd=wd / "mc", workers=2)
         evs = read_events(nest)
         v = validate_trace("C07_SyntaxTrace", nest, wd=wd / "tv_nest", nchunks=1 if quick else 2)
+        run_driver("c07", ["corpus", corp, seed(), 20 if quick else 400, ",".join(theories)], timeout=7200)
+        evs2 = read_events(corp)
+        v2 = validate_trace("C07_SyntaxTrace", corp, wd=wd / "tv_corpus", nchunks=1 if quick else 2)
     finally:
         side_res = fut.result()
         pool.shutdown()
@@ -247,7 +247,7 @@ def run(rep, tier):
         rep.add_mc("C07_History", rh, hcfg)
         if rh.violated:
             rep.design_violation("C07_History", rh)
-    evs3, v3, evs2, v2 = side_res["evs3"], side_res["v3"], side_res["evs2"], side_res["v2"]
+    evs3, v3 = side_res["evs3"], side_res["v3"]
     rep.add_trace_result("arguments+histories", evs3, v3, sample_n=2)
     rep.add_trace_result("corpus", evs2, v2, sample_n=2)
     # ---- non-vacuity of the oracles (two at a time)
